@@ -21,7 +21,7 @@ from mc.registry import functionals as FR
 from mc.registry import derived as DV
 
 PROPERTY = 'C09'
-BUDGET = {'quick': 900, 'thorough': 5400}
+BUDGET = {'quick': 1500, 'thorough': 5400}
 INF = float('inf')
 H1, H2, H3 = 2.0 ** -6, 2.0 ** -9, 2.0 ** -12
 QUICK_SPACES = ('rn2x2', 'pw_rn2_2_c', 'pw_rn2_1_c', 'rn3', 'ud3', 'rn3w2', 'rn3wa', 'ud3b', 'pw_rn2_2', 'pw_ud2_2', 'pr_rn2_rn2_w')
